@@ -18,6 +18,9 @@ Theorem C10_source_decisions :
    lim_recv_request_decomp_code = 512 /\ lim_recv_response_decomp_code = 512 /\ lim_recv_trailers_decomp_code = 512).
 Proof. exact (conj gen_limit_operators (conj gen_limit_sources gen_limit_constants)). Qed.
 
+(* (translate/gen_limits.py additionally anchors, at each send site, that nothing the call can be parked on - an .await,
+   a poll_* - sits between reading the limit and comparing it: the limit in force is the one at the comparison) *)
+
 (* ---- T1: the size h3 computes when encoding and accumulates when decoding is the RFC 9114 4.2.2 size ---- *)
 Theorem C10_encoded_size_is_rfc9114 :
   forall fs bs size, encode_stateless fs = Ok (bs, size) -> size = section_size fs.
